@@ -26,7 +26,8 @@ ASSUMPTIONS = [
     "bound (3) #requests <= #distinct OIDs revealed + #roots + 1 is deliberately loose",
     "for repetition-dependent f only termination, no-re-request, the request bound and the outcome class are asserted (the trajectory then depends on chunking the client is free to choose)",
     "a non-advancing binding later in the same GETBULK response, after the column has left its root, may or may not be reported",
-    "the first request of every operation asks for the roots themselves, so a non-advancing f(root, 0) must be reported (strict) whatever grouping the implementation uses later",
+    "a root is first asked for as itself, so a non-advancing f(root, 0) must be reported (strict) for every root that WAS requested, whatever grouping the implementation uses (a root may legitimately never be requested, e.g. when the agent has already answered endOfMibView behind a smaller OID)",
+    "an implementation may request OIDs the agent never returned as long as they lie below a requested root (probing for the next column of a table); the function agent answers them with their honest successor",
     "a response with a non-zero error-status must end the operation: normally (status 2 on a continuation request, documented) or with the ErrorResponse subclass; it must never be re-requested",
     "a response without any binding (max-repetitions 0, or scripted) must still end the operation: normally, or with SnmpError for the GETNEXT-based operations (binding-count mismatch)",
 ]
@@ -243,9 +244,10 @@ def run_case(case) -> Result:
     if len(agent.requests) > bound:
         return Result("%s sent %d requests, the agent revealed only %d distinct OIDs (+%d roots +1)" % (
             op, len(agent.requests), len(agent.revealed), len(used_roots)), nonadv, classes)
-    if agent.unknown_requested:
-        return Result("%s requested %s which the agent never returned and is no root" % (
-            op, vagent.S(agent.unknown_requested[0])), nonadv, classes)
+    foreign = [o for o in agent.unknown_requested if not any(_in(o, r) for r in used_roots)]
+    if foreign:
+        return Result("%s requested %s which the agent never returned and which lies below no root" % (
+            op, vagent.S(foreign[0])), nonadv, classes)
     if outcome == "faulty" and errors == "warn" and op in ("walk", "multiwalk"):
         return Result("errors='warn' but %s raised FaultySNMPImplementation: %s" % (op, exc_text), nonadv, classes)
     if outcome == "faulty" and not nonadv:
@@ -254,7 +256,8 @@ def run_case(case) -> Result:
     # (6) the very first answer: whatever the grouping of later requests, the first request asks for the roots themselves
     # and the first repetition answers f(root, 0) for each of them; a non-advancing one must be reported
     if not agent.empty_sent and not agent.errors_sent and not (bulk == 0 and op in ("bulkwalk", "bulktable")):
-        stalled = [r for r in used_roots if probe.f(r, 0) is not None and not r < probe.f(r, 0)]
+        asked = {o for _, oids in agent.requests for o in oids}
+        stalled = [r for r in used_roots if r in asked and probe.f(r, 0) is not None and not r < probe.f(r, 0)]
         if op in ("bulkwalk", "bulktable"):
             # a GETBULK row is positional: an implementation may stop reading it at the first endOfMibView (for a conformant
             # agent and ascending roots everything behind it is endOfMibView too), so only stalls before that count
